@@ -92,6 +92,12 @@ def cases(rng, tier):
     for op in gen_ops.OPS_BASIC:
         for _ in range(per):
             out.append(op_case(rng, op))
+    # EXHAUSTIVE sub-family: the complete discrete argument space of the reducing / shape ops on small operands
+    for op, leaves, args in gen_ops.enumerate_basic(rng, tier):
+        c = {'kind': 'op', 'op': op, 'leaves': [(s_, d_, False) for s_, d_, _ in leaves], 'args': args, 'malformed': False, 'enumerated': True}
+        nl = len(leaves)
+        c['lines'] = gen_ops.program(c, rng) + [f't val {nl}', f't val {nl + 1}', f't val {nl + 2}']
+        out.append(c)
     for _ in range(60 if tier == 'quick' else 1500):
         out.append(sop_case(rng))
     for _ in range(40 if tier == 'quick' else 1000):
@@ -131,6 +137,7 @@ def distribution(cases):
     for c in cases:
         k = c['kind'] + (':' + c['op'] if 'op' in c else '')
         d[k] = d.get(k, 0) + 1
+        if c.get('enumerated'): d['enumerated: complete argument space of the reducing / shape ops on small operands'] = d.get('enumerated: complete argument space of the reducing / shape ops on small operands', 0) + 1
     return d
 
 
